@@ -206,6 +206,22 @@ def check_config(spec, m, N, setting, dev, res, ctx, only_mask=None):
                     continue
                 res.nt((name, N, label, dev, rescale, mask.tobytes(), ip))
                 res.cls("mask_shape", (ny, N, int(mask.sum())))
+                if is_log:
+                    # log-variables are returned twice in the boxes of means and prediction errors, under their own
+                    # name (levels) and under log(name): the two must be the same numbers
+                    for key in ("predict_med", "update_med", "smooth_med", "predict_err"):
+                        box = f.out[key]
+                        for ln in [k_ for k_ in box.keys() if k_.startswith("log(") and k_.endswith(")")]:
+                            base = ln[4:-1]
+                            if base not in box:
+                                continue
+                            a_ = box[ln].get_data_from_until((START, START + N - 1))[:, 0].astype(float)
+                            b_ = box[base].get_data_from_until((START, START + N - 1))[:, 0].astype(float)
+                            with np.errstate(all="ignore"):
+                                lb = np.log(b_)
+                            res.count("log_named_items_compared")
+                            if not np.allclose(a_, lb, rtol=1e-9, atol=1e-10, equal_nan=True):
+                                bad("log_named_item", "%s %s = %s, log of %s = %s" % (key, ln, np.round(a_, 8).tolist(), base, np.round(lb, 8).tolist()), what=key)
                 nobs = len(cells)
                 maha = J.mahalanobis(cells, ydata)
                 vs = (maha / nobs) if (rescale and nobs) else 1.0
@@ -482,7 +498,8 @@ def run(ctx, total, info):
     info["floors"] = {"filter_calls": (total.evaluations, 8000), "mask_shapes": (len(total.classes.get("mask_shape", ())), 20),
                       "unit_root_cases": (total.counters.get("unit_root_cases", 0), 500),
                       "variant_runs": (total.counters.get("variant_runs", 0), 400),
-                      "requested_output_runs": (total.counters.get("requested_output_runs", 0), 1000)}
+                      "requested_output_runs": (total.counters.get("requested_output_runs", 0), 1000),
+                      "log_named_items_compared": (total.counters.get("log_named_items_compared", 0), 5000)}
     # the moments the implementation reports (finite cells) are pinned: none of these classes may disappear
     c = total.counters
     for key in ("predict_med_v", "predict_med_o", "predict_med_e", "predict_med_w", "update_med_v", "update_med_o", "update_med_e",
